@@ -19,24 +19,30 @@ From FV Require Import Base.Prelude Cpp.IR Cpp.Exec Model.Lowering Model.FragTra
 From Coq Require Import QArith.
 Close Scope Q_scope.
 
-Definition prow := list (string * pa).                       (* branch name, element-level column *)
+Definition prow := list (string * bexp).                     (* branch name, element-level column *)
+Fixpoint prow_nifs (cols : prow) : nat := match cols with [] => 0 | (_, b) :: t => nifs b + prow_nifs t end.
 Inductive qbody :=
 | QRow (r : row)
 | QMany (cr : collref) (ps : guard) (cols : prow).
 Record query := { q_filter : option ex; q_body : qbody }.
 
-Definition body_size (b : qbody) : nat := match b with QRow r => row_size r | QMany _ g _ => 2 + gsize g end.
+Definition body_size (b : qbody) : nat := match b with QRow r => row_size r | QMany _ g cols => 2 + gsize g + prow_nifs cols end.
 
 (* ---------- translation ---------- *)
-Fixpoint prow_sets (iv : string) (arrow : bool) (cols : prow) (nf k : nat) : stmts :=
+(* the conditionals of all columns come first (declarations, then the if/else statements), then the assignments *)
+Fixpoint prow_ds (cols : prow) (m : nat) : list decl :=
+  match cols with [] => [] | (_, body) :: t => bdecls body m ++ prow_ds t (m + nifs body) end.
+Fixpoint prow_pre (iv : string) (arrow : bool) (cols : prow) (m : nat) : stmts :=
+  match cols with [] => SNil | (_, body) :: t => app_stmts (bpre iv arrow body m) (prow_pre iv arrow t (m + nifs body)) end.
+Fixpoint prow_sets (iv : string) (arrow : bool) (cols : prow) (nf k m : nat) : stmts :=
   match cols with
   | [] => SNil
-  | (name, body) :: t => SCons (SSet (mem_name name (nf + k)) None (tpa iv arrow body)) (prow_sets iv arrow t nf (S k))
+  | (name, body) :: t => SCons (SSet (mem_name name (nf + k)) None (bx iv arrow body m)) (prow_sets iv arrow t nf (S k) (m + nifs body))
   end.
 Fixpoint prow_members (cols : prow) (nf k : nat) : list member :=
   match cols with
   | [] => []
-  | (name, body) :: t => {| m_type := pa_type body; m_name := mem_name name (nf + k) |} :: prow_members t nf (S k)
+  | (name, body) :: t => {| m_type := btype body; m_name := mem_name name (nf + k) |} :: prow_members t nf (S k)
   end.
 Fixpoint prow_branches (cols : prow) (nf k : nat) : list branch :=
   match cols with
@@ -53,11 +59,13 @@ Definition row_block (bk : backend) (r : row) (n : nat) : block :=
 Definition row_branches (r : row) (nf : nat) : list branch :=
   map (fun m => {| br_name := fst (fst m); br_var := m_name (snd m) |}) (combine r (row_members r nf 0)).
 
-Definition many_inner (bk : backend) (cr : collref) (cols : prow) (nf : nat) (n : nat) : stmts :=
-  app_stmts (prow_sets (iv_name n) (c_arrow cr) cols nf 0) (one_stmt (SFill (b_fill bk))).
+Definition many_inner (fill : string) (iv : string) (arrow : bool) (cols : prow) (nf m : nat) : stmts :=
+  app_stmts (prow_pre iv arrow cols m) (app_stmts (prow_sets iv arrow cols nf 0 m) (one_stmt (SFill fill))).
+Definition many_nf (ps : guard) (cols : prow) (n : nat) : nat := n + 2 + gsize ps + prow_nifs cols.
 Definition many_loop_stmt (bk : backend) (cr : collref) (ps : guard) (cols : prow) (n : nat) : stmt :=
   SFor (iv_name n) (CDeref (CVar (vcv_name cr n)))
-       (loop_block (iv_name n) (c_arrow cr) ps n (many_inner bk cr cols (n + 2 + gsize ps) n)).
+       (loop_block (iv_name n) (c_arrow cr) ps n (prow_ds cols (n + gsize ps))
+                   (many_inner (b_fill bk) (iv_name n) (c_arrow cr) cols (many_nf ps cols n) (n + gsize ps))).
 Definition many_block (bk : backend) (cr : collref) (ps : guard) (cols : prow) (n : nat) : block :=
   Blk [{| d_type := c_ctype cr; d_name := vcv_name cr n; d_init := None |}]
       (SCons (SFetch (b_idiom bk) (vcv_name cr n) (c_ctype cr) (c_bank cr) (fetch_lines (b_idiom bk) (c_ctype cr) (c_bank cr)))
@@ -66,9 +74,9 @@ Definition many_block (bk : backend) (cr : collref) (ps : guard) (cols : prow) (
 Definition body_block (bk : backend) (b : qbody) (n : nat) : block :=
   match b with QRow r => row_block bk r n | QMany cr ps cols => many_block bk cr ps cols n end.
 Definition body_members (b : qbody) (n : nat) : list member :=
-  match b with QRow r => row_members r (n + row_size r) 0 | QMany _ g cols => prow_members cols (n + 2 + gsize g) 0 end.
+  match b with QRow r => row_members r (n + row_size r) 0 | QMany _ g cols => prow_members cols (many_nf g cols n) 0 end.
 Definition body_branches (b : qbody) (n : nat) : list branch :=
-  match b with QRow r => row_branches r (n + row_size r) | QMany _ g cols => prow_branches cols (n + 2 + gsize g) 0 end.
+  match b with QRow r => row_branches r (n + row_size r) | QMany _ g cols => prow_branches cols (many_nf g cols n) 0 end.
 
 (* first index of the body: after the names of the filter condition *)
 Definition body_start (q : query) (n0 : nat) : nat :=
@@ -87,11 +95,20 @@ Definition prog_q (bk : backend) (q : query) (n0 : nat) : program :=
                end |}.
 
 (* ---------- reference semantics ---------- *)
-Fixpoint dprow (ev : event) (v : value) (cols : prow) : res (list value) :=
+(* as the code does: the conditionals of all columns first, then the columns' values *)
+Fixpoint dprow_conds (ev : event) (v : value) (cols : prow) : res (list value) :=
   match cols with
   | [] => ROk []
-  | (_, body) :: t => rdo x <- dpa ev v body; rdo xs <- dprow ev v t; ROk (conv (pa_type body) x :: xs)
+  | (_, body) :: t => rdo l1 <- dconds ev v body; rdo l2 <- dprow_conds ev v t; ROk (l1 ++ l2)
   end.
+Fixpoint dprow_vals (ev : event) (v : value) (cols : prow) (rs : list value) : res (list value) :=
+  match cols with
+  | [] => ROk []
+  | (_, body) :: t => rdo x <- dbx ev v body (firstn (nifs body) rs);
+                      rdo xs <- dprow_vals ev v t (skipn (nifs body) rs); ROk (conv (btype body) x :: xs)
+  end.
+Definition dprow (ev : event) (v : value) (cols : prow) : res (list value) :=
+  rdo rs <- dprow_conds ev v cols; dprow_vals ev v cols rs.
 (* SelectMany: the passing elements, in order, each giving one row *)
 Fixpoint many_loop (ev : event) (cols : prow) (ps : guard) (l : list value) : res (list (list value)) :=
   match l with
@@ -200,9 +217,9 @@ Definition prog_for (bk : backend) (q : query) (n0 : nat) : program :=
   if String.eqb (b_idiom bk) "cms_miniaod" then prog_q_mini bk q n0 else prog_q bk q n0.
 
 (* ---------- wire format ---------- *)
-Definition d_pcol (s : sexp) : option (string * pa) :=
+Definition d_pcol (s : sexp) : option (string * bexp) :=
   match s with
-  | SList [SAtom name; b] => option_map (fun b' => (name, b')) (d_pa b)
+  | SList [SAtom name; b] => option_map (fun b' => (name, b')) (d_bexp b)
   | _ => None
   end.
 Definition d_collref (s : sexp) : option collref :=
